@@ -308,6 +308,8 @@ struct RefRun {
     end: RefEnd,
     /// classes of known deviations this *input* falls into
     classes: Vec<&'static str>,
+    /// offset at which the header of a frame announcing too much is complete
+    oversize_hdr_end: Option<usize>,
 }
 
 /// Walks the byte stream frame by frame following RFC 6455 section 5 and the property's list:
@@ -318,6 +320,7 @@ fn reference(server: bool, max: usize, data: &[u8]) -> RefRun {
     let mut pos = 0usize;
     let mut frames = vec![];
     let mut classes = vec![];
+    let mut oversize_hdr_end = None;
     let mut in_frag = false;
     let end = loop {
         let d = &data[pos..];
@@ -360,6 +363,7 @@ fn reference(server: bool, max: usize, data: &[u8]) -> RefRun {
         // more than max_size, or more than an address space can hold (header + payload > usize::MAX)
         if len > max as u128 || idx as u128 + len > usize::MAX as u128 {
             classes.push("ws-oversize-buffered");
+            oversize_hdr_end = Some(pos + idx);
             if (d.len() as u128) < idx as u128 + len {
                 break RefEnd::More { oversize_pending: true };
             }
@@ -424,7 +428,7 @@ fn reference(server: bool, max: usize, data: &[u8]) -> RefRun {
         };
         frames.push(f);
     };
-    RefRun { frames, end, classes }
+    RefRun { frames, end, classes, oversize_hdr_end }
 }
 
 /// verdict of the property on the implementation's behaviour; returns (ok, why, known_class)
@@ -474,6 +478,22 @@ fn judge(server: bool, max: usize, data: &[u8], cuts: &Cuts, whole: &Run, cutrun
         (RefEnd::More { oversize_pending: true }, End::Err(..)) => {}
         (RefEnd::More { oversize_pending: true }, End::More(n)) => {
             return (false, format!("frame announcing more than max_size={max} not refused before buffering it ({n} bytes held, decoder asks for more)"), class)
+        }
+    }
+    // "refused without first buffering it": under the given read segmentation the error must come with
+    // the read that completes the header, not later
+    if let (Some(h), Some(f)) = (rf.oversize_hdr_end, cutrun.err_after_fed) {
+        let mut end = 0;
+        let mut first_end = data.len();
+        for s in segments(data, cuts) {
+            end += s.len();
+            if end >= h {
+                first_end = end;
+                break;
+            }
+        }
+        if f > first_end {
+            return (false, format!("oversize frame refused only after {f} bytes were fed; its header was complete at {h} (read ended at {first_end})"), class);
         }
     }
     // no delivered payload exceeds max_size: implied by equality with the reference, which never delivers one
@@ -1309,7 +1329,7 @@ fn main() {
         em.emit(run_case(id, &case));
     }
     if args.case.is_none() {
-        let n = args.n.unwrap_or(if args.thorough() { 4000 } else { 600 });
+        let n = args.n.unwrap_or(if args.thorough() { 3000 } else { 450 });
         let mut rng = Rng::new(args.seed);
         for i in 0..n {
             let mut r = rng.fork();
